@@ -378,7 +378,7 @@ def gen_response(rng, lax=True):
     return head + body
 
 
-MUTATIONS = ["huge_cl", "dup_cl", "sign_cl", "space_cl", "us_cl", "uni_cl", "empty_cl", "cl_te", "te_list", "te_twice", "te_bad",
+MUTATIONS = ["nonutf8_err", "huge_cl", "dup_cl", "sign_cl", "space_cl", "us_cl", "uni_cl", "empty_cl", "cl_te", "te_list", "te_twice", "te_bad",
              "lf_for_crlf", "cr_only", "obs_fold", "ctl_value", "ctl_name", "ctl_target", "ws_before_colon", "ws_name_lead",
              "no_colon", "chunk_plus", "chunk_0x", "chunk_space", "chunk_empty", "chunk_big", "chunk_ext_lf", "chunk_no_crlf",
              "bad_trailer", "no_host", "dup_host", "empty_host", "byte_flip", "byte_insert", "byte_delete", "truncate",
@@ -394,6 +394,19 @@ def mutate(rng, data, kind=None):
         i = d.find(b"\r\n")
         return d[:i + 2] + extra + d[i + 2:] if i >= 0 else d + extra
 
+    if kind == "nonutf8_err":
+        # a syntax error next to a byte that is not valid UTF-8: the error path must still produce a 400
+        return rng.choice([
+            b"GET /\xff\x7f HTTP/1.1\r\nHost: h\r\n\r\n", b"GET /\xff\x00 HTTP/1.1\r\nHost: h\r\n\r\n",
+            b"G\xffE T / HTTP/1.1\r\nHost: h\r\n\r\n", b"GET / HTTP/1.\xff\r\nHost: h\r\n\r\n", b"\xff\xfe\r\nHost: h\r\n\r\n",
+            b"GET / HTTP/1.1\r\nHost: h\r\nX\xff Y: v\r\n\r\n", b"GET / HTTP/1.1\r\nHost: h\r\nX: a\xff\x00\r\n\r\n",
+            b"GET / HTTP/1.1\r\nHost: h\r\nContent-Length: \xff1\r\n\r\n", b"GET / HTTP/1.1\r\nHost: h\r\nTransfer-Encoding: \xffchunked\r\n\r\n",
+            b"POST / HTTP/1.1\r\nHost: h\r\nTransfer-Encoding: chunked\r\n\r\n\xff\r\n\r\n",
+            b"POST / HTTP/1.1\r\nHost: h\r\nTransfer-Encoding: chunked\r\n\r\n3;\xff\n\r\nabc\r\n0\r\n\r\n",
+            b"POST / HTTP/1.1\r\nHost: h\r\nTransfer-Encoding: chunked\r\n\r\n0\r\nX\xff: \x00\r\n\r\n",
+            b"GET http://\xff[::1 HTTP/1.1\r\nHost: h\r\n\r\n", b"CONNECT \xff:70000 HTTP/1.1\r\nHost: h\r\n\r\n",
+            b"GET /" + bytes([rng.randrange(128, 256), rng.choice([0, 9, 11, 32, 127])]) + b" HTTP/1.1\r\nHost: h\r\n\r\n",
+        ]), kind
     if kind == "huge_cl":
         n = rng.choice([4299, 4300, 4301, 5000])
         return after_first_line(b"Content-Length: " + rng.choice([b"0", b"1"]) * n + b"\r\n"), kind
